@@ -23,6 +23,8 @@ type fsTableResult struct {
 	other   string // undecided or unexpected
 }
 
+var zeroWeightSpellings = []string{";q=0", ";q=0.0", "; q=0.000", " ;q=0.00", ";q=0."}
+
 var fsTableMemo = map[*Program]*fsTableResult{}
 
 func fileServerTable(h H) *fsTableResult {
@@ -97,7 +99,8 @@ func fileServerTable(h H) *fsTableResult {
 								offered = append(offered, names[i])
 							}
 							if refuse&(1<<i) != 0 {
-								offered = append(offered, names[i]+";q=0")
+								// every spelling of a zero weight (RFC 9110 §12.4.2: "0" [ "." 0*3DIGIT ], optional blanks) refuses
+								offered = append(offered, names[i]+zeroWeightSpellings[(i+refuse)%len(zeroWeightSpellings)])
 							}
 						}
 						respHdr := amap{&amapData{vals: map[string]aval{}, keys: map[string]aval{}, typ: hdrT}}
